@@ -49,12 +49,23 @@ struct CookieRec {
     epoch: u64,
 }
 
-#[derive(Clone, Debug)]
+#[derive(Clone)]
 enum CookieTruth {
     /// genuine cookie made from `keys` (not necessarily the keys of the session that presents it)
     Issued { server: usize, epoch: u64, keys: SessionKeys },
     Tampered,
     Garbage,
+}
+
+impl std::fmt::Debug for CookieTruth {
+    fn fmt(&self, f: &mut std::fmt::Formatter<'_>) -> std::fmt::Result {
+        match self {
+            // never print key material
+            CookieTruth::Issued { server, epoch, keys } => write!(f, "Issued(server {server}, epoch {epoch}, alg {})", keys.alg),
+            CookieTruth::Tampered => write!(f, "Tampered"),
+            CookieTruth::Garbage => write!(f, "Garbage"),
+        }
+    }
 }
 
 #[derive(Clone, Debug)]
@@ -153,6 +164,8 @@ struct World {
     seen_resps: Vec<(usize, u64, u64, Vec<u8>)>,
     tamper_done: bool,
     adv_ticks: u32,
+    /// size of the servers' receive buffer (the daemon's is 1024; the protocol code has no limit)
+    srv_rx_cap: usize,
 }
 
 fn srv_node(i: usize) -> u32 {
@@ -405,7 +418,7 @@ impl World {
         let mut built = None;
         for _ in 0..4 {
             match req::build(&mut SimPick, &keys, &cookie, &l, &wrong) {
-                Some(b) if b.bytes.len() <= 1024 => {
+                Some(b) if b.bytes.len() <= self.srv_rx_cap.min(1800) => {
                     built = Some(b);
                     break;
                 }
@@ -584,7 +597,8 @@ impl World {
             Meta::Forged { sess: Some(s), .. } => (client_ip(*s), Some(*s)),
             Meta::Forged { sess: None, .. } => (ADV_IP, None),
         };
-        let msg = rx_limit(&d.bytes).to_vec();
+        // the server's receive buffer: 1024 like the daemon's, in some runs a larger one
+        let msg = d.bytes[..d.bytes.len().min(self.srv_rx_cap)].to_vec();
         // C23: un-truncated bytes straight into the decoder in the server's key context
         if d.bytes.len() > msg.len() {
             let ks = self.servers[si].keyset();
@@ -1150,6 +1164,7 @@ async fn run_async() {
         seen_resps: vec![],
         tamper_done: false,
         adv_ticks: 0,
+        srv_rx_cap: if choose("cfg.srv_rx_cap", 4) == 3 { 4096 } else { 1024 },
     };
     let mut kr = simkit::sub_rng("cfg.keys");
     for c in 0..n_sess {
@@ -1222,6 +1237,11 @@ async fn run_async() {
         let Some(t) = [t_timer, t_net].into_iter().flatten().min() else {
             break;
         };
+        if t > 4 * 3600 * 1_000_000_000 {
+            // a source was talked into an absurd poll interval (not this world's concern): horizon reached
+            probe("horizon-reached");
+            break;
+        }
         tokio::time::sleep_until(start + std::time::Duration::from_nanos(t)).await;
         simkit::set_now_ns(t);
         let now = t;
